@@ -2,6 +2,7 @@ package checks
 
 import (
 	"fmt"
+	"os"
 	"sync"
 	"time"
 
@@ -133,6 +134,9 @@ func CheckC03(r *core.Run) {
 	cfgs := baseCfgs(r, "c03", r.Pick(36, 240), func(i int, c *HistCfg) {
 		c.Txs = r.Pick(30, 60)
 	})
+	if os.Getenv("VERIF_ONLY") == "txreplay" { // (development aid: the replay part alone)
+		cfgs = nil
+	}
 	traces := histories(r, cfgs)
 	// every timing of the background writer: batches with duplicate page ids (stalled disk)
 	bs := batchScenarios()
@@ -141,6 +145,13 @@ func CheckC03(r *core.Run) {
 		r.AddEvals(int64(len(t.Events)))
 	}
 	traces = append(traces, bs...)
+	// every behaviour of TxFile.tla within small bounds, replayed on the real store
+	if r.Thorough() {
+		traces = append(traces, replayTxFile(r, "TxReplay_t.cfg", 2, 10)...)
+		traces = append(traces, replayTxFile(r, "TxReplay_t2.cfg", 1, 2)...)
+	} else {
+		traces = append(traces, replayTxFile(r, "TxReplay_q.cfg", 2, 1)...)
+	}
 	if len(traces) > 0 && traces[0] != nil {
 		n := len(traces[0].Events)
 		if n > 12 {
